@@ -350,6 +350,13 @@ class Violation:
         self.detail = detail
 
 
+EXTRA_PREFIX = 6
+# a state behind a long set-up (a counter that has to run out) is looked for with a few long prefixes as well: idle
+# cycles can pad any shorter set-up
+LONG_PREFIXES = [20, 40, 80, 160, 320, 640]
+ROOT_BUDGET_S = 240
+
+
 def decide(make, h, name, k, build, stats, init="free", max_prefix=6, twin=None, sample=None):
     """Decide one window property.
 
@@ -386,9 +393,16 @@ def decide(make, h, name, k, build, stats, init="free", max_prefix=6, twin=None,
         stats.notes.append("a violation of this property was already confirmed on the simulator for another "
                            "configuration; further free-state counterexamples were not rooted (time bound)")
         return None
-    prefixes = [0] if init == "reset" else range(0, max_prefix + 1)
+    # prefixes 0..max_prefix are always tried; up to EXTRA_PREFIX longer ones while the rooting of this query has used
+    # less than ROOT_BUDGET_S (a state that needs a longer set-up - e.g. several register writes - is still found;
+    # nothing of this runs on a tree where the free-state query is unsat)
+    prefixes = [0] if init == "reset" else list(range(0, max_prefix + 1 + EXTRA_PREFIX)) + \
+        [p_ for p_ in LONG_PREFIXES if p_ > max_prefix + EXTRA_PREFIX]
     undecided = 0
+    t_root = time.time()
     for p in prefixes:
+        if p > max_prefix and time.time() - t_root > ROOT_BUDGET_S:
+            break
         if init == "reset":
             rframes, rcons, rmodel = frames, cons, model
         else:
@@ -412,7 +426,7 @@ def decide(make, h, name, k, build, stats, init="free", max_prefix=6, twin=None,
         raise Inconclusive(twin_failed)
     stats.unrooted += 1
     stats.notes.append(f"{name}: free-state counterexample not reachable from reset within "
-                       f"{max_prefix} cycles; reset-rooted bounded verdict holds (all-state strengthening failed)")
+                       f"{p} cycles; reset-rooted bounded verdict holds (all-state strengthening failed)")
     return None
 
 
